@@ -149,6 +149,10 @@ type objInfo struct {
 // St returns the per-execution state cell of obj.
 func St(obj interface{}) *objInfo {
 	e := Active()
+	if e == nil {
+		// a goroutine of a finished execution still unwinding: give it a scratch cell
+		return &objInfo{labels: map[int]int{}}
+	}
 	e.omu.Lock()
 	defer e.omu.Unlock()
 	oi := e.objs[obj]
